@@ -39,6 +39,17 @@ def _bbox_miss(pts, lo, hi):
     return Or(miss)
 
 
+def _warm(obj):
+    """evaluate everything the object derives from its geometry (bounding box, centres, a selection) while it still has the
+    geometry it was created with: whatever is cached must not survive the assignments that follow"""
+    _ = obj.extent
+    if hasattr(obj, "centroids"):
+        _ = obj.centroids
+    ext = obj.extent
+    if ext is not None:
+        _ = obj.mask_by_extent(real_np.asarray(ext))
+
+
 def _mk_cellobj(kind, n, m):
     from geoh5py.workspace import Workspace
     from geoh5py.objects import Curve, Surface, Points
@@ -53,6 +64,7 @@ def _mk_cellobj(kind, n, m):
     vd = obj.add_data({"vd": {"values": real_np.zeros(n), "association": "VERTEX"}})
     cd = obj.add_data({"cd": {"values": real_np.zeros(m), "association": "CELL"}}) if kind != "points" and m else None
     patch.detach(ws, obj, vd, *([cd] if cd is not None else []))
+    _warm(obj)
     return ws, obj, vd, cd
 
 
@@ -201,6 +213,7 @@ def _mk_grid(nu, nv):
     g = Grid2D.create(ws, origin=[0.0, 0.0, 0.0], u_cell_size=1.0, v_cell_size=1.0, u_count=nu, v_count=nv)
     d = g.add_data({"gd": {"values": real_np.zeros(nu * nv), "association": "CELL"}})
     patch.detach(ws, g, d)
+    _warm(g)
     return ws, g, d
 
 
@@ -341,6 +354,7 @@ class BlockSelection(Scenario):
         bb = bm.add_data({"bb": {"values": real_np.ones(n, dtype=bool), "association": "CELL", "type": "boolean"}})
         bi = bm.add_data({"bi": {"values": (real_np.arange(n) + 50).astype("int32"), "association": "CELL", "type": "integer"}})
         patch.detach(ws, bm, bd, bb, bi)
+        _warm(bm)
         with self.engine(cx) as X:
             du = [0.0] + [cx.real(f"du{i}") for i in range(1, nu + 1)]
             dv = [0.0] + [cx.real(f"dv{i}") for i in range(1, nv + 1)]
@@ -416,6 +430,7 @@ class OctreeSelection(Scenario):
         od = oc.add_data({"od": {"values": real_np.zeros(n), "association": "CELL"}})
         oi = oc.add_data({"oi": {"values": (real_np.arange(n) + 50).astype("int32"), "association": "CELL", "type": "integer"}})
         patch.detach(ws, oc, od, oi)
+        _warm(oc)
         with self.engine(cx) as X:
             su, sv, sw = cx.real("su"), cx.real("sv"), cx.real("sw")
             for z in (su, sv, sw):
